@@ -542,6 +542,7 @@ def np_flatnonzero(I, a):
     if a.kind != "bool":
         a = Arr(a.n, lambda k: a.at(k) != 0, "bool")
     m, src, rank = mask_filter(I, a)
+    I.path.ghost["last_mask"] = (m, src, rank)
     return Arr(m, lambda k: src(k), "int", "int64")
 
 
